@@ -352,7 +352,21 @@ def runLine (line : String) : String :=
      | _, _, _ => "bad-case\t-")
   | "H" :: nm :: args =>
     (match parseNames nm, args.mapM decChars with
-     | some nm, some args => specCompare false (showSh (Bespoke.shParse nm args)) (showSh (Bespoke.shParse nm (match args with | a0 :: r => a0 :: Bespoke.separateSO false r | [] => [])))
+     | some nm, some args =>
+       -- `--name=ARG` as the first argument is also rewritten to `--name ARG` (options that take an argument)
+       let eqSplit : List (List Char) → List (List Char) := fun r =>
+         match r with
+         | ('-' :: '-' :: body) :: r' =>
+           let n := body.takeWhile (· != '=')
+           let tl := body.dropWhile (· != '=')
+           (match Bespoke.nonShell n, tl with
+            | some (true, _), _ :: v => if n.isEmpty then r else ('-' :: '-' :: n) :: v :: r'
+            | _, _ => r)
+         | _ => r
+       let base := showSh (Bespoke.shParse nm args)
+       let alt := showSh (Bespoke.shParse nm (match args with | a0 :: r => a0 :: eqSplit r | [] => []))
+       if alt ≠ base && !byDesign alt && !byDesign base then base ++ "\t" ++ s!"FAIL:`--name ARG`-spelling-gives {alt}"
+       else specCompare false base (showSh (Bespoke.shParse nm (match args with | a0 :: r => a0 :: Bespoke.separateSO false r | [] => [])))
      | _, _ => "bad-case\t-")
   | "K" :: p :: st :: nm :: args =>
     (match p.toList.head? >>= parseBit, st.toInt?, parseNames nm, args.mapM decChars with
